@@ -874,6 +874,18 @@ def descriptor_scripts(vf, assumed=False):
             Clause("redeem_script", ("C01",), "*self matches Descriptor::Sh(sh) ==> sh.inner matches ShInner::Ms(m) ==> r is Ok && r->Ok_0.bytes() == spec_encode(m)")]))
 
 
+# R9: `SLICE.iter().map(F).sum::<usize>()` -> `sum_sizes(SLICE)` where F is the per-item size in any of its spellings: the path
+# `T::size` / `ItemSize::size` / `<T as ItemSize>::size`, or the eta-expanded closure `|x| x.size()` / `|x| T::size(x)` (the closure
+# parameter is read off the text and must be the receiver; anything else in the closure -- `x.size() + 1` -- is not this pattern
+# and leaves the unit UNDECIDED).  The turbofish on `sum` is optional (a typed `let` says the same).
+R9_SUM_SIZES = sub(
+    "R9",
+    r"\b(\w+)\s*\.iter\(\)\s*\.map\(\s*(?:T::size|ItemSize::size|<T as ItemSize>::size"
+    r"|\|\s*(\w+)(?:\s*:\s*&\s*T)?\s*\|\s*(?:\2\.size\(\)|(?:T|ItemSize|<T as ItemSize>)::size\(\2\)))\s*\)"
+    r"\s*\.sum(?:::<usize>)?\(\)",
+    r"sum_sizes(\1)")
+
+
 PLAN_IMPL = "impl:Plan<Pk>"
 
 
@@ -905,7 +917,7 @@ def plan(vf):
                  Clause("covers_scriptsig_pushes", ("C09",), "r >= sum_push(wit@) + 1"),
                  Clause("bounded", ("C11",), "r <= wit@.len() * 0x40_0005 + 9")]),
         rewrites=[lit("R8-specialise", "<T: ItemSize>(wit: &[T])", "<Pk: MiniscriptKey>(wit: &[Placeholder<Pk>])"),
-                  lit("R9", "wit.iter().map(T::size).sum::<usize>()", "sum_sizes(wit)")])
+                  R9_SUM_SIZES])
     vf.item(PLAN, "struct:Plan", rewrites=[strip_derive])
     ASREF = lit("R7", "self.template.as_ref()", "self.template.as_slice()")
     D, T = "self.descriptor", "self.template@"
